@@ -138,6 +138,14 @@ def apply_call(obj, name, args):
         other, kw = args
         if other is None:
             return obj.update(**kw)
+        # the same update in the three forms the API accepts - mapping, list of pairs, iterator of
+        # pairs - chosen by a deterministic function of the argument (replays stay exact)
+        import zlib
+        form = zlib.crc32(repr(sorted(map(repr, other))).encode()) % 4 if isinstance(other, dict) else 0
+        if form == 2:
+            return obj.update(list(other.items()), **kw)
+        if form == 3:
+            return obj.update(iter(tuple(other.items())), **kw)
         return obj.update(other, **kw)
     if name == "dsetdefault":
         return obj.setdefault(args[0], args[1])
